@@ -69,6 +69,7 @@ PROG = '''
 from edgegraph.traversal import breadthfirst, depthfirst
 from edgegraph.structure import Vertex
 from refmodel import ref_reach, ref_bft, ref_dft_recursive, ref_dft_iterative, same_set, no_repeats, filter_list
+from refmodel import hop_distances, bfs_layers_ok, preorder_ok
 
 def attempt(fn, fr):
     try:
@@ -114,6 +115,7 @@ gen_ok = (gbx == b1x) and (grx == r1x) and (gix == i1x) and (gb == b1) and (gr =
 set_ok = True
 filt_ok = True
 order_ok = True
+derived_ok = True
 if pre is None and rexc is None and b0 is not None and r0 is not None and i0 is not None:
     for t in (b0, r0, i0):
         set_ok = set_ok and (t[0] is start) and no_repeats(t) and same_set(t, reach)
@@ -124,6 +126,10 @@ if pre is None and rexc is None and b0 is not None and r0 is not None and i0 is 
         wr, _ = ref_dft_recursive(uni, start, d, u, ffv)
         wi, _ = ref_dft_iterative(uni, start, d, u, ffv)
         order_ok = (b0 == wb) and (r0 == wr) and (i0 == wi)
+        # stated directly, so that a slip in the reference traversals cannot hide: distances never decrease along
+        # bft's listing; in dft_recursive a vertex is followed by its first not-yet-listed neighbour
+        dist = hop_distances(uni, start, d, u, ffv)
+        derived_ok = (dist is not None) and bfs_layers_ok(b0, dist) and preorder_ok(uni, r0, d, u, ffv)
         # determinism: repeating the calls (the second time with the neighbour cache on) gives the same sequences
         Vertex.NEIGHBOR_CACHING = True
         b2, _ = attempt(breadthfirst.bft, None)
@@ -207,3 +213,5 @@ def scenario(B, p):
         B.prove("every traversal returns where reachability is defined", out["exc_ok"])
         B.prove("canonical BFS / recursive pre-order / explicit-stack DFS order; repeatable (also with the cache on)",
                 out["order_ok"])
+        B.prove("hop distance never decreases along bft; dft_recursive continues with the first unlisted neighbour",
+                out["derived_ok"])
